@@ -28,8 +28,7 @@ What is mirrored, with the line ranges of the repaired file:
 * the formula manager's symbol table and fresh-name counter (`formula.py:108-146`): `Symbol` refuses a second sort for a
   name, `FreshSymbol(template)` counts up from `_fresh_guess` until the name is free.
 
-Not modelled (`Err.unmodelled`, the driver answers `out-of-fragment`): OMT commands, `define-sort` with parameters that
-are used, `(_ to_bv w)` outside the head position, the literal cache of `atom` (only observable when `set-logic` comes
+Not modelled (`Err.unmodelled`, the driver answers `out-of-fragment`): `define-sort` with parameters that are used, `(_ to_bv w)` outside the head position, the literal cache of `atom` (only observable when `set-logic` comes
 after a literal), annotations' storage (`cache.annotations`; the returned term is modelled).
 -/
 namespace PySMT.Parser
@@ -644,6 +643,10 @@ inductive Command
   | defineFun (name : String) (formals : List Sym) (ret : Ty) (body : Term)
   | assert (t : Term)
   | terms (name : String) (ts : List Term)
+  | assertSoft (t : Term) (weight : Term) (id : String)
+  | objective (name : String) (t : Term) (opts : List (String × String))
+  | minmax (name : String) (ts : List Term) (opts : List (String × String))
+  | loadObjective (n : Int)
   deriving Repr, Inhabited
 
 def tokOf : Sexp → Option String
@@ -821,6 +824,84 @@ def cmdTerms (Γ : PEnv) (nm : String) (args : List Sexp) : Except Err (PEnv × 
      | .error e => .error e)
   | _ => .error .syntax
 
+/-! ### OMT extension (`_cmd_assert_soft`, `_cmd_objective`, `_cmd_minmax_maxmin_obj`, `_cmd_check_allsat`,
+`_cmd_load_objective_model`) -/
+
+/-- the options of `assert-soft`: `:weight <term>` and `:id <token>`, each at most once -/
+def softOpts (Γ : PEnv) : List Sexp → Option Term → Option String → Except Err (Option Term × Option String × MgrSt)
+  | [], w, i => .ok (w, i, Γ.mgr)
+  | [_], _, _ => .error .syntax
+  | k :: v :: rest, w, i =>
+    match k with
+    | .atom kt =>
+      if pyTok kt == ":weight" && w.isNone then
+        (match readTermSt Γ v with
+         | .ok (t, σ) => softOpts { Γ with mgr := σ } rest (some t) i
+         | .error e => .error e)
+      else if pyTok kt == ":id" && i.isNone then
+        (match tokOf v with
+         | some x => softOpts Γ rest w (some x)
+         | none => .error .syntax)
+      else .error .syntax
+    | _ => .error .syntax
+
+def cmdAssertSoft (Γ : PEnv) (args : List Sexp) : Except Err (PEnv × Command) :=
+  match args with
+  | e :: opts =>
+    (match readTermSt Γ e with
+     | .ok (t, σ) =>
+       (match softOpts { Γ with mgr := σ } opts none none with
+        | .ok (w, i, σ') => .ok ({ Γ with mgr := σ' }, .assertSoft t (w.getD (Term.int 1)) (i.getD "I"))
+        | .error e => .error e)
+     | .error e => .error e)
+  | [] => .error .syntax
+
+/-- `:id <token>` and `:signed`, in any order and number -/
+def objOpts : List Sexp → List (String × String) → Except Err (List (String × String))
+  | [], acc => .ok acc.reverse
+  | [.atom k], acc => if pyTok k == ":signed" then .ok ((":signed", "True") :: acc).reverse else .error .syntax
+  | [_], _ => .error .syntax
+  | k :: v :: rest, acc =>
+    match k with
+    | .atom kt =>
+      if pyTok kt == ":id" then
+        (match tokOf v with
+         | some x => objOpts rest ((":id", x) :: acc)
+         | none => .error .syntax)
+      else if pyTok kt == ":signed" then objOpts (v :: rest) ((":signed", "True") :: acc)
+      else .error .syntax
+    | _ => .error .syntax
+
+def withSigned (opts : List (String × String)) : List (String × String) :=
+  if opts.any (fun o => o.1 == ":signed") then opts else opts ++ [(":signed", "False")]
+
+def cmdObjective (Γ : PEnv) (nm : String) (args : List Sexp) : Except Err (PEnv × Command) :=
+  match args with
+  | e :: opts =>
+    (match readTermSt Γ e, objOpts opts [] with
+     | .ok (t, σ), .ok os => .ok ({ Γ with mgr := σ }, .objective nm t (withSigned os))
+     | .error e, _ => .error e
+     | _, .error e => .error e)
+  | [] => .error .syntax
+
+def isOptTok : Sexp → Bool
+  | .atom k => (pyTok k).startsWith ":"
+  | _ => false
+
+def cmdMinmax (Γ : PEnv) (nm : String) (args : List Sexp) : Except Err (PEnv × Command) :=
+  let ts := args.takeWhile (fun x => !isOptTok x)
+  let opts := args.dropWhile (fun x => !isOptTok x)
+  match readTerms Γ ts, objOpts opts [] with
+  | .ok (ts', σ), .ok os => .ok ({ Γ with mgr := σ }, .minmax nm ts' (withSigned os))
+  | .error e, _ => .error e
+  | _, .error e => .error e
+
+def cmdLoadObjective (Γ : PEnv) (args : List Sexp) : Except Err (PEnv × Command) :=
+  match toksOf args with
+  | some [] => .ok (Γ, .loadObjective 1)
+  | some [k] => (match pyInt? k with | some n => .ok (Γ, .loadObjective n) | none => .error .other)
+  | _ => .error .syntax
+
 /-- dispatch on the command name (`self.commands[current]`) -/
 def cmdNamed (Γ : PEnv) (nm : String) (args : List Sexp) : Except Err (PEnv × Command) :=
   if nm == "assert" then cmdAssert Γ args
@@ -835,7 +916,11 @@ def cmdNamed (Γ : PEnv) (nm : String) (args : List Sexp) : Except Err (PEnv × 
   else if nm == "declare-fun" then cmdDeclareFun Γ args
   else if nm == "declare-const" then cmdDeclareConst Γ args
   else if nm == "define-fun" then cmdDefineFun Γ args
-  else if nm == "get-value" || nm == "check-sat-assuming" then cmdTerms Γ nm args
+  else if nm == "get-value" || nm == "check-sat-assuming" || nm == "check-allsat" then cmdTerms Γ nm args
+  else if nm == "assert-soft" then cmdAssertSoft Γ args
+  else if nm == "maximize" || nm == "minimize" then cmdObjective Γ nm args
+  else if nm == "minmax" || nm == "maxmin" then cmdMinmax Γ nm args
+  else if nm == "load-objective-model" then cmdLoadObjective Γ args
   else if nm == "define-fun-rec" || nm == "define-funs-rec" then .error .notImplemented
   else .error .unmodelled
 
